@@ -894,7 +894,8 @@ fn gen_discipline(rng: &mut Rng) -> Vec<TStmt> {
         else { TStmt::Update { scol: 3, sval: Some(rng.range(0, 9)), wcol: 0, wval: rng.range(1, IDMAX) } }
     };
     while ops.len() < len {
-        match rng.below(100) {
+        let r = { let r = rng.below(100); if live.is_empty() && r >= 65 && !rng.chance(1, 10) { 40 } else { r } };
+        match r {
             0..=34 => ops.push(dml(rng, &mut ins_left)),
             35..=64 => {
                 let free: Vec<&str> = names.iter().copied().filter(|n| !live.contains(n)).collect();
@@ -905,7 +906,7 @@ fn gen_discipline(rng: &mut Rng) -> Vec<TStmt> {
                 ops.push(dml(rng, &mut ins_left));
             }
             65..=79 => {
-                if live.is_empty() || rng.chance(1, 12) { ops.push(TStmt::Release((*rng.pick(&names)).into())); if let Some(l) = ops.last() { if let TStmt::Release(n) = l { if let Some(p) = live.iter().position(|x| x == n) { live.remove(p); } } } }
+                if live.is_empty() || rng.chance(1, 14) { ops.push(TStmt::Release((*rng.pick(&names)).into())); if let Some(l) = ops.last() { if let TStmt::Release(n) = l { if let Some(p) = live.iter().position(|x| x == n) { live.remove(p); } } } }
                 else {
                     // prefer a savepoint that is not the newest
                     let p = if live.len() >= 2 && rng.chance(3, 4) { rng.below(live.len() as u64 - 1) as usize } else { rng.below(live.len() as u64) as usize };
